@@ -429,6 +429,30 @@ func runWire(cfg *runCfg) error {
 		bcases = append(bcases, fmt.Sprintf("(%s, %s, %s)", p, cBytes(bp.Raw()), g))
 		rep.count("built:blockproof")
 	}
+	// block proofs from COMMITs with genuine random-seed shares and member ids of different lengths: the proof's
+	// random-seed signature is the aggregate of exactly those shares (here: the master signature over the seed)
+	for i := 0; i < n/10+5; i++ {
+		h := primitives.BlockHeight(1 + r.Intn(50))
+		seed := []byte(fmt.Sprintf("seed-%d", r.Intn(1000)))
+		ref := wRef{Inst: 7, Type: 3, Height: uint64(h), View: uint64(r.Intn(3)), Hash: rBytes(r, rep)}
+		k := 2 + r.Intn(5)
+		var cms []*interfaces.CommitMessage
+		for j := 0; j < k; j++ {
+			id := primitives.MemberId(fmt.Sprintf("member-%d-%s", j, strings.Repeat("x", r.Intn(3)*j)))
+			if j == 0 {
+				id = primitives.MemberId("m0")
+			}
+			c := (&protocol.CommitContentBuilder{SignedHeader: bRef(ref), Sender: &protocol.SenderSignatureBuilder{MemberId: id, Signature: kr.signConsensus(id, h, bRef(ref).Build().Raw())},
+				Share: kr.signSeed(id, h, seed)}).Build()
+			cms = append(cms, interfaces.NewCommitMessage(c))
+		}
+		bp := blockproof.GenerateLeanHelixBlockProof(&keyManager{kr, idBytes(1)}, cms)
+		got := protocol.BlockProofReader(bp.Raw()).RandomSeedSignature()
+		if !bytes.Equal(got, kr.masterSeed(h, seed)) {
+			rep.finding("C20", "block-proof-seed-is-not-the-aggregate-of-the-shares", fmt.Sprintf("block proof generated from %d COMMITs with genuine shares (member ids of different lengths): its random-seed signature is not the aggregate of those shares", k), fmt.Sprintf("ids of lengths 2..%d", 9+2*k))
+		}
+		rep.count("built:blockproof-with-genuine-shares")
+	}
 	rep.Evaluations = len(cases) + len(dcases) + len(bcases)
 	rep.DistinctNontr = len(cases) + len(bcases)
 	rep.Rule = "messages of all five kinds and block proofs with instance/height/view across the 64-bit range, ids/hashes/signatures/shares of length 0..257 with arbitrary bytes, 0..20 votes and prepare senders, with and without proofs; each built through the repo's builders and CreateConsensusRawMessage and read back through ToConsensusMessage; half as many again built through services/messagesfactory (votes from PreparedMessages of other members' factories, a sixth with different hashes in the two halves, a sixth with an empty PREPREPARE hash; NEW_VIEWs from such votes), compared with the message the inputs describe and every signature re-verified over the re-read bytes; plus two mutated copies (truncation, bit flip, trailing bytes, size word, random) of each, compared when the Go reader does not panic; non-trivial = built message or block proof (distinct with overwhelming probability: random field values)"
